@@ -131,9 +131,8 @@ impl<L: Language> SerializableRuleConfig<L> {
     rule: &RuleCore<L>,
     env: DeserializeEnv<L>,
   ) -> Result<(), RuleConfigError> {
-    let Some(ser) = &self.rewriters else {
-      return Ok(());
-    };
+    // without a `rewriters` section no rewriter is defined: none may be used
+    let ser = self.rewriters.as_deref().unwrap_or_default();
     let reg = &env.registration;
     let vars = rule.defined_vars();
     for val in ser {
